@@ -113,6 +113,6 @@ func c10RunSelectPart(env *mc.Env, layouts []*c10Layout) {
 	res.Traces = res.Evaluations
 	res.Distinct = ds.Len()
 	res.Rule = fmt.Sprintf("every subset (eligible pool) of the processors of each of %d layouts x every requested count -1..|pool|+1; non-trivial = 1 <= count <= |pool|; distinct = distinct (layout, pool, count, selection)", len(layouts))
-	res.Bounds = map[string]any{"layouts": len(layouts), "max_cpus": layouts[len(layouts)-1].N, "pools": total}
+	res.Bounds = map[string]any{"layouts": len(layouts), "max_cpus": c10MaxN(layouts), "pools": total}
 	env.Emit(res)
 }
